@@ -1,10 +1,12 @@
 import Mimium.Model.Sched
 import Mimium.Model.SchedIO
 import Mimium.Model.SchedMem
+import Mimium.Model.SchedHeap
 /-! `drv_c11`: line protocol driver for C11. One input line per case on stdin (as printed by the harness `c11`),
 one output line per case:
   `H <model obs> <verdict> <exact|order-differs>`  for handle histories (verdict: any tie order; 4th: vs the BinaryHeap port)
-  `P <vm model obs> <wasm queue model obs> <info> <wasm model with closure memory obs>`    for task tables -/
+  `P <vm model obs> <wasm queue model obs> <info> <wasm model with closure memory obs> <vm model over the BinaryHeap port>
+     <wasm queue model over the BinaryHeap port>`    for task tables -/
 open Mimium.Sched
 
 def c11Line (line : String) : String :=
@@ -27,8 +29,13 @@ def c11Line (line : String) : String :=
       let w := W.run tb.env (fun k => k * 31 + 5) tb.ticks ()
       let m := M.run stdHeap tb.env tb.ticks ()
       -- closure-style tables allocate no record per `@`: the memory model does not apply, the queue model is the prediction
-      let mobs := if tb.closureStyle then showRun w else showRun m
-      s!"P\t{showRun vm}\t{showRun w}\t{runInfo vm}\t{mobs}"
+      -- tables with `selK(t, v)` requests (records of two cells): the memory model with record layout
+      let mobs := if tb.closureStyle then showRun w
+        else if tb.hasUpv then showRun (R.run tableFmt stdHeap tb.env tb.ticks ()) else showRun m
+      -- the same two loops with the literal BinaryHeap port inside (the `…_on_binary_heap` theorems are about these)
+      let vmH := Vm.runH stdHeap tb.env tb.ticks ()
+      let wH := W.runH stdHeap tb.env tb.ticks ()
+      s!"P\t{showRun vm}\t{showRun w}\t{runInfo vm}\t{mobs}\t{showRun vmH}\t{showRun wH}"
     | none => "bad-input"
   | _ => "bad-input"
 
